@@ -322,6 +322,17 @@ pub fn minimise(
             c.recorder.end_pseed = 1;
             progress |= try_it(c, &mut cur, budget);
         }
+        // configuration of the embedding application: none, if the violation does not need it
+        if cur.debug_dump {
+            let mut c = cur.clone();
+            c.debug_dump = false;
+            progress |= try_it(c, &mut cur, budget);
+        }
+        if cur.log_level != 0 {
+            let mut c = cur.clone();
+            c.log_level = 0;
+            progress |= try_it(c, &mut cur, budget);
+        }
         // knobs
         for k in cur.knobs.keys().cloned().collect::<Vec<_>>() {
             let mut c = cur.clone();
